@@ -98,6 +98,8 @@ Choose == /\ phase = "start"
           \* the split right after the root token, and any split of a query without FROM.
           /\ split' \in {0, 1000} \cup
                 (IF ~PartialSplits THEN {}
+                 \* (several roots: any two-way split leaves a later root inside a word with blanks - the named deviation again)
+                 ELSE IF \E k \in 1 .. Len(Base[q']) : Base[q'][k][1] \in {"sub,", "1,"} THEN {}
                  ELSE IF \E k \in 1 .. Len(Base[q']) : Base[q'][k][1] = "from"
                       THEN { k \in 2 .. Len(Base[q']) - 1 : Base[q'][k - 1][1] = "from" }
                       ELSE 1 .. Len(Base[q']) - 1)
